@@ -82,6 +82,6 @@ def harnesses():
         for b, bn in KK.items():
             tier = "quick" if (a, b) in quick_pairs else "thorough"
             out.append(H(f"c10_eqhash_{an}_{bn}", "C10", tier, f"key_eq_hash({a}, {b})", f"eqhash_{an}_{bn}",
-                         f"k1 any {an}, k2 any {bn}", unwind=20 if 9 in (a, b) else 14))
+                         f"k1 any {an}, k2 any {bn}", unwind=20))   # the recorder compares 16 events: loop of 16
         out.append(H(f"c10_refl_{an}", "C10", "quick", f"key_refl({a})", f"refl_{an}", f"k any {an}", unwind=20 if a == 9 else 14))
     return out
